@@ -92,7 +92,10 @@ FieldIdx(s, k) == IF \E j \in 1..Len(s.fields) : s.fields[j][1] = k
 \* A "Dict" spec may declare constant keys and one dynamic key field (key 0, a StrKey with the regular
 \* expression '^d'): keys 5..8 are the strings that match it ('d5'..'d8'), every other key is named 'k<n>'.
 IsDynKey(k) == k \in 5..8
-MatchIdx(s, k) == IF k # 0 /\ FieldIdx(s, k) # 0 THEN FieldIdx(s, k)
+\* A second kind of dynamic key field, key -1, is the unconstrained StrKey(): it matches every key that is not
+\* a declared constant key (a spec declares at most one dynamic field).
+MatchIdx(s, k) == IF k > 0 /\ FieldIdx(s, k) # 0 THEN FieldIdx(s, k)
+                  ELSE IF k > 0 /\ FieldIdx(s, -1) # 0 THEN FieldIdx(s, -1)
                   ELSE IF IsDynKey(k) THEN FieldIdx(s, 0) ELSE 0
 HasKey(v, k) == \E i \in 1..Len(v.xs) : v.xs[i][1] = k
 ValAt(v, k) == v.xs[CHOOSE i \in 1..Len(v.xs) : v.xs[i][1] = k][2]
@@ -125,7 +128,7 @@ Acc(s, v) ==
          ELSE IF s.fields = <<>> THEN "yes"
          ELSE IF \E i \in 1..Len(v.xs) : MatchIdx(s, v.xs[i][1]) = 0 THEN "no"                       \* undeclared key
          ELSE And3([j \in 1..Len(s.fields) |->
-                      IF s.fields[j][1] = 0                                                            \* the dynamic key field
+                      IF s.fields[j][1] <= 0                                                           \* the dynamic key field
                       THEN And3([i \in 1..Len(v.xs) |-> IF MatchIdx(s, v.xs[i][1]) = j THEN Acc(s.fields[j][2], v.xs[i][2]) ELSE "yes"])
                       ELSE IF HasKey(v, s.fields[j][1]) THEN Acc(s.fields[j][2], ValAt(v, s.fields[j][1]))
                       ELSE IF HasDefault(s.fields[j][2])                                              \* absent: default applied
@@ -146,7 +149,7 @@ App(s, v) ==
   ELSE CASE s.t \in {"List", "TupleVar"} -> V(v.t, 0, [i \in 1..Len(v.xs) |-> App(s.elems[1], v.xs[i])])
     [] s.t = "TupleFix" -> V(v.t, 0, [i \in 1..Len(v.xs) |-> App(s.elems[i], v.xs[i])])
     [] s.t = "Dict" /\ s.fields # <<>> ->
-         LET ks == SortedKeys(({s.fields[j][1] : j \in 1..Len(s.fields)} \ {0}) \cup {v.xs[i][1] : i \in 1..Len(v.xs)}) IN
+         LET ks == SortedKeys({k \in {s.fields[j][1] : j \in 1..Len(s.fields)} : k > 0} \cup {v.xs[i][1] : i \in 1..Len(v.xs)}) IN
          DictV([n \in 1..Len(ks) |->
                  LET f == s.fields[MatchIdx(s, ks[n])][2] IN
                  <<ks[n], IF HasKey(v, ks[n]) THEN App(f, ValAt(v, ks[n])) ELSE App(f, RefDefault(f))>>])
@@ -189,7 +192,7 @@ WhyNot(s, v) ==
               ELSE LET i == CHOOSE i \in 1..Len(v.xs) : Acc(s.elems[i], v.xs[i]) # "yes" IN <<s.t, "elem">> \o WhyNot(s.elems[i], v.xs[i])
     [] s.t = "Dict" ->
               IF \E i \in 1..Len(v.xs) : MatchIdx(s, v.xs[i][1]) = 0 THEN <<s.t, "undeclared_key">>
-              ELSE IF \E j \in 1..Len(s.fields) : s.fields[j][1] # 0 /\ ~HasKey(v, s.fields[j][1]) /\ ~HasDefault(s.fields[j][2]) THEN <<s.t, "required_key">>
+              ELSE IF \E j \in 1..Len(s.fields) : s.fields[j][1] > 0 /\ ~HasKey(v, s.fields[j][1]) /\ ~HasDefault(s.fields[j][2]) THEN <<s.t, "required_key">>
               ELSE IF \E i \in 1..Len(v.xs) : Acc(s.fields[MatchIdx(s, v.xs[i][1])][2], v.xs[i][2]) # "yes"
                    THEN LET i == CHOOSE i \in 1..Len(v.xs) : Acc(s.fields[MatchIdx(s, v.xs[i][1])][2], v.xs[i][2]) # "yes"
                         IN <<s.t, "field">> \o WhyNot(s.fields[MatchIdx(s, v.xs[i][1])][2], v.xs[i][2])
@@ -205,15 +208,15 @@ HasRegex(s) == (s.t = "Str" /\ s.vals # <<>>)
                \/ (\E j \in 1..Len(s.fields) : HasRegex(s.fields[j][2]))
 
 DeclaredKeys(s) == {s.fields[j][1] : j \in 1..Len(s.fields)}
-ConstKeys(s) == DeclaredKeys(s) \ {0}
-HasDyn(s) == 0 \in DeclaredKeys(s)
+ConstKeys(s) == {k \in DeclaredKeys(s) : k > 0}
+HasDyn(s) == \E k \in DeclaredKeys(s) : k <= 0
 IsDictFam(s) == s.t \in {"Dict", "DictDyn"}
 \* "for the fields they share": projection of a dict value accepted by the extension of child c over base b onto
 \* the fields b declares -- b's constant keys, and (when b has a dynamic key field) every key that is not one of
 \* the child's own constant keys
 ProjShared(v, b, c) ==
   IF v.t = "dict" /\ IsDictFam(b) /\ IsDictFam(c) /\ b.fields # <<>>
-  THEN DictV(SelectSeq(v.xs, LAMBDA kv : kv[1] \in ConstKeys(b) \/ (HasDyn(b) /\ kv[1] \notin ConstKeys(c))))
+  THEN DictV(SelectSeq(v.xs, LAMBDA kv : kv[1] \in ConstKeys(b) \/ ((b.t = "DictDyn" \/ MatchIdx(b, kv[1]) # 0) /\ kv[1] \notin ConstKeys(c))))
   ELSE v
 
 ---------------------------------------------------------------------------
@@ -235,8 +238,24 @@ ValuesQ ==
         DictV(<< <<1, IntV(0)>>, <<2, IntV(2)>> >>), DictV(<< <<2, IntV(1)>> >>),
         DictV(<< <<9, IntV(1)>> >>), DictV(<< <<1, StrV(1)>> >>), DictV(<< <<1, IntV(0)>>, <<9, IntV(1)>> >>),
         DictV(<< <<1, IntV(0)>>, <<2, IntV(1)>> >>), DictV(<< <<1, IntV(3)>>, <<2, IntV(1)>> >>),
-        DictV(<< <<1, ListV(<<IntV(0)>>)>> >>), DictV(<< <<1, VNone>> >>)}
+        DictV(<< <<1, ListV(<<IntV(0)>>)>> >>), DictV(<< <<1, VNone>> >>),
+        DictV(<< <<2, StrV(1)>> >>), DictV(<< <<7, IntV(0)>> >>), DictV(<< <<2, StrV(1)>>, <<9, IntV(1)>> >>),
+        DictV(<< <<2, IntV(1)>>, <<7, IntV(0)>> >>), DictV(<< <<9, StrV(1)>> >>)}
   \cup {ObjV(1), ObjV(2), ObjV(3)}
+
+\* Dict specs mixing constant keys with a dynamic key field (0: StrKey('^d'), -1: StrKey()), for both sides of
+\* is_compatible / extend
+MixedDicts ==
+  {DictS(<< <<-1, I0>> >>), DictS(<< <<-1, StrS>> >>), DictS(<< <<0, I0>> >>),
+   DictS(<< <<2, StrS>>, <<-1, I0>> >>), DictS(<< <<2, IntS(0, NONE, FALSE)>>, <<-1, I0>> >>), DictS(<< <<2, I0>>, <<-1, I0>> >>),
+   DictS(<< <<1, Dflt(I0, IntV(1))>>, <<-1, StrS>> >>), DictS(<< <<2, I0>>, <<0, I0>> >>), DictS(<< <<2, StrS>>, <<0, I0>> >>),
+   DictS(<< <<1, I0>>, <<2, Dflt(I0, IntV(1))>>, <<-1, I0>> >>)}
+\* modifier combinations: noneable /\ frozen, noneable /\ default (non-None), on several families
+ModCombos ==
+  {Frz(NonOf(I0), IntV(1)), Dflt(NonOf(I0), IntV(1)), Frz(NonOf(IntS(0, 2, FALSE)), IntV(2)), Frz(NonOf(StrS), StrV(1)),
+   Dflt(NonOf(StrS), StrV(2)), Frz(NonOf(BoolS), BoolV(1)), Frz(NonOf(ListS(I0, 0, NONE)), ListV(<<IntV(0)>>)),
+   Dflt(NonOf(ListS(I0, 0, 2)), ListV(<<>>)), Frz(EnumS(<<VNone, IntV(1)>>), IntV(1)), Frz(NonOf(FloatS(NONE, NONE, FALSE)), FloatV(5)),
+   DictS(<< <<1, Frz(NonOf(I0), IntV(1))>>, <<2, I0>> >>), DictS(<< <<1, Dflt(NonOf(I0), IntV(1))>> >>), Frz(NonOf(ObjS(1)), ObjV(1))}
 
 Sizes3 == {<<0, NONE>>, <<1, NONE>>, <<2, NONE>>, <<0, 1>>, <<1, 1>>, <<0, 2>>, <<1, 2>>, <<2, 2>>}
 SpecsQ ==
@@ -261,6 +280,7 @@ SpecsQ ==
   \cup {UnionS(<<I0, StrS>>), UnionS(<<I01, StrS>>), UnionS(<<I0, ListS(I0, 0, NONE)>>), UnionS(<<StrS, ObjS(1)>>),
         NonOf(UnionS(<<I0, StrS>>)), UnionS(<<FloatS(NONE, NONE, FALSE), StrS>>)}
   \cup {AnyS}
+  \cup MixedDicts \cup ModCombos
 
 \* ---- thorough chunks.  Each chunk is a universe of its own (all pairs inside a chunk are checked).
 Bounds4 == {NONE, -1, 0, 1, 2, 3}
@@ -281,6 +301,7 @@ SpecsNum ==
   \cup {UnionS(<<a, b>>) : a \in {I0, I01, IntS(0, NONE, FALSE), IntS(NONE, 2, FALSE)}, b \in {StrS, FloatS(NONE, NONE, FALSE), ObjS(1)}}
   \cup {NonOf(UnionS(<<I0, StrS>>)), UnionS(<<I0, StrS, ObjS(2)>>), UnionS(<<StrS, I0>>), AnyS, Dflt(AnyS, IntV(1)),
         ObjS(1), ObjS(2), ObjS(3), NonOf(ObjS(1)), NonOf(ObjS(2))}
+  \cup ModCombos
 ValuesNum ==
   {VNone, VMissing, BoolV(1), BoolV(0), FloatV(5), FloatV(25), FloatV(-5), FloatV(15), StrV(1), StrV(2)}
   \cup {IntV(n) : n \in -2..4} \cup {ObjV(1), ObjV(2), ObjV(3)}
@@ -322,6 +343,10 @@ SpecsMap ==
   \cup {ListS(DictS(<< <<1, f>> >>), 0, NONE) : f \in {I0, I01, Dflt(I0, IntV(1))}}
   \cup {ObjS(1), ObjS(2), ObjS(3), NonOf(ObjS(1)), UnionS(<<DictS(<< <<1, I0>> >>), I0>>), UnionS(<<ObjS(1), StrS>>),
         UnionS(<<ObjS(2), ObjS(3)>>), UnionS(<<ObjS(1), ObjS(3)>>), AnyS, I0}
+  \cup MixedDicts
+  \cup {DictS(<< <<k, f>>, <<d, g>> >>) : k \in {1, 2}, f \in {I0, I01, StrS}, d \in {0, -1}, g \in {I0, I01, StrS}}
+  \cup {DictS(<< <<d, g>> >>) : d \in {0, -1}, g \in {I01, NonOf(I0)}}
+  \cup {DictS(<< <<1, Frz(NonOf(I0), IntV(1))>>, <<2, I0>> >>), DictS(<< <<1, Dflt(NonOf(I0), IntV(1))>> >>)}
 DictAtoms == {IntV(0), IntV(1), IntV(3), StrV(1), VNone}
 ValuesMap ==
   {VNone, VMissing, IntV(0), StrV(1), ObjV(1), ObjV(2), ObjV(3), ListV(<<>>), DictV(<<>>)}
@@ -333,7 +358,10 @@ ValuesMap ==
         DictV(<< <<1, DictV(<<>>)>> >>), DictV(<< <<1, DictV(<< <<1, IntV(0)>> >>)>> >>), DictV(<< <<1, DictV(<< <<1, IntV(3)>> >>)>> >>),
         DictV(<< <<1, DictV(<< <<2, IntV(0)>> >>)>> >>),
         ListV(<<DictV(<<>>)>>), ListV(<<DictV(<< <<1, IntV(0)>> >>)>>), ListV(<<DictV(<< <<1, IntV(3)>> >>), DictV(<< <<1, IntV(0)>> >>)>>),
-        ListV(<<DictV(<< <<2, IntV(0)>> >>)>>)}
+        ListV(<<DictV(<< <<2, IntV(0)>> >>)>>),
+        DictV(<< <<7, IntV(0)>> >>), DictV(<< <<7, StrV(1)>> >>), DictV(<< <<2, StrV(1)>>, <<9, IntV(1)>> >>),
+        DictV(<< <<2, IntV(1)>>, <<7, IntV(0)>> >>), DictV(<< <<9, StrV(1)>> >>), DictV(<< <<1, IntV(0)>>, <<7, IntV(3)>> >>),
+        DictV(<< <<2, IntV(3)>>, <<8, IntV(0)>> >>)}
 
 CONSTANT U          \* "quick" | "num" | "seq" | "map"
 Specs == CASE U = "quick" -> SpecsQ [] U = "num" -> SpecsNum [] U = "seq" -> SpecsSeq [] U = "map" -> SpecsMap
